@@ -12,10 +12,20 @@ open Rtosc.ArgVal (Cell)
 /-- the two separators the printer puts between arguments -/
 def IsSepTxt (s : Bytes) : Prop := s = [32] ∨ s = [10, 32, 32, 32, 32]
 
+/-- scanner and checker read the text `t`, with nothing behind it, as the single cell `c`
+    (weaker than `TokOK`; enough for the last token of a text) -/
+structure TokEnd (t : Bytes) (c : Cell) : Prop where
+  start : TokStart t
+  scan : ∀ (fuel : Nat) (prev : List Cell) (ab : Nat),
+    scanArgVal (fuel + 1) t prev ab true = .ok (t.length, [c])
+  skip : ∀ (fuel : Nat) (ty : UInt8) (llhs : Option Bytes) (ib : Bool),
+    ∃ r, skipNextPrintedArg (fuel + 1) t ty llhs true ib = .ok r ∧
+      r.src = some [] ∧ r.skipped = 1 ∧ r.type = c.type
+
 /-- `text` consists of good tokens for the scalar cells `cs`, separated by a blank or a line break -/
 inductive TokText : List Cell → Bytes → Prop
   | nil : TokText [] []
-  | one (t : Bytes) (c : Cell) : TokOK t c → c.isScalar = true → TokText [c] t
+  | one (t : Bytes) (c : Cell) : TokEnd t c → c.isScalar = true → TokText [c] t
   | cons (t : Bytes) (c : Cell) (sep : Bytes) (cs : List Cell) (text : Bytes) :
       TokOK t c → c.isScalar = true → IsSepTxt sep → cs ≠ [] → TokText cs text →
       TokText (c :: cs) (t ++ (sep ++ text))
@@ -64,6 +74,15 @@ theorem sep_of_next (sep text : Bytes) (hs : IsSepTxt sep) (ht : TokStart text) 
 theorem sep_nil : Sep [] := by
   refine ⟨Or.inl rfl, by decide, by decide⟩
 
+theorem TokOK.toEnd {t : Bytes} {c : Cell} (h : TokOK t c) : TokEnd t c := by
+  refine ⟨h.start, ?_, ?_⟩
+  · intro fuel prev ab
+    have := h.scan [] fuel prev ab sep_nil
+    simpa using this
+  · intro fuel ty llhs ib
+    have := h.skip [] fuel ty llhs ib sep_nil
+    simpa using this
+
 
 
 theorem skipFmt_space (s : Bytes) : skipFmt fmtSpace s = s.length - (skipSpace s).length := by
@@ -107,8 +126,7 @@ theorem scanLoop_tokText {cs : List Cell} {text : Bytes} (h : TokText cs text) :
       cases f with
       | zero => simp at hf
       | succ g =>
-        have hscan := ht.scan [] (t.length + 1) done.reverse i sep_nil
-        simp only [List.append_nil] at hscan
+        have hscan := ht.scan (t.length + 1) done.reverse i
         simp only [List.length_singleton] at hn
         unfold scanArgValsLoop
         have hlt : i < n := by omega
@@ -165,8 +183,7 @@ theorem countLoop_tokText {cs : List Cell} {text : Bytes} (h : TokText cs text) 
       | zero => simp at hf
       | succ g =>
         obtain ⟨hne, _, h0, _, _, _, h47, _⟩ := ht.start
-        obtain ⟨r, hr, hsrc, hsk, _⟩ := ht.skip [] (t.length + 1) 0 recent false sep_nil
-        simp only [List.append_nil] at hr
+        obtain ⟨r, hr, hsrc, hsk, _⟩ := ht.skip (t.length + 1) 0 recent false
         unfold countLoop
         simp only [h0, h47, ne_eq, not_false_eq_true, and_self, ↓reduceIte, hr, bind, Except.bind, hsrc, hsk,
           skipSpace, hd_nil, not_true_eq_false, pure, Except.pure, List.length_nil]
@@ -265,10 +282,13 @@ theorem drop_eq_cons_lt {α} (l : List α) (i : Nat) (c : α) (more : List α) (
 /-- one iteration of the printer's loop for a scalar argument that is not turned into a range -/
 theorem printLoop_step (opt : POpt) (args : List Cell) (c : Cell) (more : List Cell) (i f : Nat) (st : PSt)
     (wrt : Nat) (lastSep : Int) (awl : Nat)
-    (hi : args.drop i = c :: more) (hlt : i < args.length) (hsc : c.isScalar = true) (hpt : PrintsTok opt c)
+    (hi : args.drop i = c :: more) (hlt : i < args.length) (hsc : c.isScalar = true)
+    (t : Bytes) (cols' : Int)
+    (hprint : printArgVal ((c :: more).length + 2 + 1) opt (c :: more)
+      (if i = 0 then none else (args.drop (i - 1)).head?) st = .ok (⟨st.out ++ t, cols'⟩, t.length))
     (hconv : convertToRange opt (c :: more) (args.length - i) = .ok none)
     (hinv : awl = 0 ∨ ∃ base, st.out = base ++ [32] ∧ lastSep = (base.length : Int)) :
-    ∃ (t pre1 : Bytes) (cols1 : Int) (awl1 : Nat), TokOK t c ∧
+    ∃ (pre1 : Bytes) (cols1 : Int) (awl1 : Nat),
       (pre1 = st.out ∨ ∃ base, st.out = base ++ [32] ∧ pre1 = base ++ nl4) ∧
       printArgValsLoop (f + 1) opt args args.length i st wrt lastSep awl =
         (if i + 1 < args.length then
@@ -276,8 +296,6 @@ theorem printLoop_step (opt : POpt) (args : List Cell) (c : Cell) (more : List C
             (wrt + t.length + (pre1.length - st.out.length) + 1) ((pre1 ++ t).length : Int) awl1
          else printArgValsLoop f opt args args.length (i + 1) ⟨pre1 ++ t, cols1⟩
             (wrt + t.length + (pre1.length - st.out.length)) lastSep awl1) := by
-  obtain ⟨t, cols', hprint, htok⟩ := hpt ((c :: more).length + 2) more
-    (if i = 0 then none else (args.drop (i - 1)).head?) st
   have hlb : ∃ pre1 cols1 awl1, (if !breaksItself c
         then linebreakCheck ⟨st.out ++ t, cols'⟩ (wrt + t.length) lastSep t.length awl opt.linelength
         else (pure (⟨st.out ++ t, cols'⟩, wrt + t.length, awl) : Res (PSt × Nat × Nat))) =
@@ -288,7 +306,7 @@ theorem printLoop_step (opt : POpt) (args : List Cell) (c : Cell) (more : List C
     · obtain ⟨pre, cols1, awl1, h1, _, h3⟩ := linebreakCheck_tok st.out t cols' (wrt + t.length) lastSep awl opt.linelength hinv
       exact ⟨pre, cols1, awl1, by simp [hb, h1], h3⟩
   obtain ⟨pre1, cols1, awl1, hlb, hpre1⟩ := hlb
-  refine ⟨t, pre1, cols1, awl1, htok, hpre1, ?_⟩
+  refine ⟨pre1, cols1, awl1, hpre1, ?_⟩
   rw [printArgValsLoop]
   simp only [hlt, ↓reduceIte, hi, deref, hconv, bind, Except.bind]
   rw [show (c :: more).length + 3 = ((c :: more).length + 2) + 1 from rfl, hprint]
@@ -339,8 +357,10 @@ theorem printLoop_spec (opt : POpt) (args : List Cell)
     | succ f =>
       have hc := hconv i hlt
       rw [hi] at hc
-      obtain ⟨t, pre1, cols1, awl1, htok, hpre1, hstep⟩ :=
-        printLoop_step opt args c more i f st wrt lastSep awl hi hlt hsc hpt hc hinv
+      obtain ⟨t, cols', hprint, htok⟩ := hpt ((c :: more).length + 2) more
+        (if i = 0 then none else (args.drop (i - 1)).head?) st
+      obtain ⟨pre1, cols1, awl1, hpre1, hstep⟩ :=
+        printLoop_step opt args c more i f st wrt lastSep awl hi hlt hsc t cols' hprint hc hinv
       have hpre1len : st.out.length ≤ pre1.length := by
         rcases hpre1 with h | ⟨base, h1, h2⟩
         · rw [h]; exact Nat.le_refl _
@@ -358,7 +378,7 @@ theorem printLoop_spec (opt : POpt) (args : List Cell)
         cases f with
         | zero => simp at hf
         | succ g =>
-          refine ⟨⟨pre1 ++ t, cols1⟩, pre1, t, ?_, rfl, TokText.one t c htok hsc, hpre1⟩
+          refine ⟨⟨pre1 ++ t, cols1⟩, pre1, t, ?_, rfl, TokText.one t c htok.toEnd hsc, hpre1⟩
           unfold printArgValsLoop
           simp only [hnot, ↓reduceIte, pure, Except.pure, List.length_append]
           congr 2
